@@ -1360,7 +1360,25 @@ class FileBuilder:
         Make the changes to the file system (including to ``_backups``
         and ``_build_dirs``) needed to apply the results of the
         suboperations of the specified cached ``ComplexOperation``
-        entry.
+        entry. If this raises an exception, then it undoes any changes
+        it made to ``_build_dirs``.
+        """
+        started_filenames = []
+        try:
+            self._apply_cached_suboperations_to(operation, started_filenames)
+        except Exception:
+            for filename in reversed(started_filenames):
+                self._build_dirs.error_building_file(filename)
+            raise
+
+    def _apply_cached_suboperations_to(self, operation, started_filenames):
+        """Implementation of ``_apply_cached_suboperations``.
+
+        Arguments:
+            operation (ComplexOperation): The operation.
+            started_filenames (list<str>): A list to which to append the
+                filenames of the files for which we have called
+                ``_build_dirs.started_building_file``.
         """
         for suboperation in operation.suboperations:
             if (isinstance(suboperation, BuildFileOperation) and
@@ -1371,14 +1389,13 @@ class FileBuilder:
                     locked_created_dirs = (
                         self._build_dirs.started_building_file(
                             filename, created_dirs))
-                try:
-                    self._ensure_dirs_case(locked_created_dirs)
-                    self._apply_cached_suboperations(suboperation)
-                except Exception:
-                    self._build_dirs.error_building_file(filename)
-                    raise
+                started_filenames.append(filename)
+                self._ensure_dirs_case(locked_created_dirs)
+                self._apply_cached_suboperations_to(
+                    suboperation, started_filenames)
             elif isinstance(suboperation, ComplexOperation):
-                self._apply_cached_suboperations(suboperation)
+                self._apply_cached_suboperations_to(
+                    suboperation, started_filenames)
 
     def _dirs_to_make(self, dir_, created_files):
         """Return the parents of ``dir_`` needed to create to make ``dir_``.
